@@ -211,7 +211,7 @@ func (ex *Exec) Fresh(st *State, t types.Type, name string) Val {
 		return wrapTerm(t, c)
 	case *types.Slice:
 		if _, ok := SortOf(u.Elem()); !ok {
-			return Opaque{Typ: t, Why: "slice of unmodelled element type"}
+			return Opaque{Typ: t, Why: "slice of unmodelled element type", ID: ex.Ctx.Fresh(name+"_id", "Ref")}
 		}
 		arr := ex.Ctx.Fresh(name+"_arr", ArrSort(u.Elem()))
 		ln := ex.Ctx.Fresh(name+"_len", "Int")
@@ -240,14 +240,14 @@ func (ex *Exec) Fresh(st *State, t types.Type, name string) Val {
 		}
 		return Map{Obj: o, K: u.Key(), V: u.Elem()}
 	case *types.Signature:
-		return Opaque{Typ: t, Why: "function value"}
+		return Opaque{Typ: t, Why: "function value", ID: ex.Ctx.Fresh(name+"_id", "Ref")}
 	case *types.Array:
 		if _, ok := SortOf(u.Elem()); !ok {
-			return Opaque{Typ: t, Why: "array of unmodelled element type"}
+			return Opaque{Typ: t, Why: "array of unmodelled element type", ID: ex.Ctx.Fresh(name+"_id", "Ref")}
 		}
 		return ArrContent{Arr: ex.Ctx.Fresh(name+"_arr", ArrSort(u.Elem())), N: u.Len(), Elem: u.Elem()}
 	}
-	return Opaque{Typ: t, Why: "type not modelled"}
+	return Opaque{Typ: t, Why: "type not modelled", ID: ex.Ctx.Fresh(name+"_id", "Ref")}
 }
 
 // Zero builds the zero value of type t.
